@@ -637,3 +637,62 @@ def buf_bytes(v, nbytes):
     if len(raw) < nbytes:
         return None
     return raw[:nbytes]
+
+
+# ------------------------------------------------------- bundled headers (R11.15) ---
+def header_typedefs(P, names):
+    """typedefs of the bundled headers (include/*.h) whose name is in `names`, read through clang's AST with clang's own
+    predefined macros switched off (-undef: a header that relies on a predefined macro is not interpretable here).
+    returns [(header, name, spelled type, line, invalid?)]"""
+    import os, json, subprocess
+    inc = os.path.join(P.repo, 'include')
+    if not os.path.isdir(inc):
+        raise AnalysisBroken('directory include/ vanished')
+    out = []
+    for h in sorted(os.listdir(inc)):
+        if not h.endswith('.h'):
+            continue
+        path = os.path.join(inc, h)
+        p = subprocess.run(['clang-14', '-x', 'c', '-std=c11', '-w', '-undef', '-nostdinc', '-I', inc, '-fsyntax-only', '-Xclang', '-ast-dump=json', path],
+                           capture_output=True, text=True)
+        try:
+            top = json.loads(p.stdout)
+        except ValueError:
+            raise AnalysisBroken('clang produced no AST for include/%s: %s' % (h, p.stderr[-200:]))
+        cur, line = None, 0
+        real = os.path.realpath(path)
+        for d in top.get('inner', []):
+            loc = d.get('loc', {})
+            loc = loc.get('expansionLoc') or loc
+            if loc.get('file'):
+                cur = loc['file']
+            if loc.get('line'):
+                line = loc['line']
+            if d.get('kind') != 'TypedefDecl' or d.get('isImplicit') or d.get('name') not in names:
+                continue
+            t = d.get('type', {})
+            own = cur is not None and os.path.realpath(cur) == real
+            out.append(('include/' + (h if own else os.path.basename(cur or h)), d['name'], t.get('desugaredQualType') or t.get('qualType') or '', line, bool(d.get('isInvalid'))))
+    seen, res = set(), []
+    for e in out:       # a header included by another one is reported once
+        if e[:2] not in seen:
+            seen.add(e[:2])
+            res.append(e)
+    return res
+
+
+def c_int_type(spelling):
+    """(bits, is_unsigned) of a C integer type as clang spells it (an _Atomic qualifier does not change the value type)"""
+    import re
+    from .interp import int_type
+    t = (spelling or '').strip()
+    m = re.match(r'^_Atomic\((.*)\)$', t)
+    if m:
+        t = m.group(1).strip()
+    t = t.replace('_Atomic ', '').strip()
+    t = {'unsigned short int': 'unsigned short', 'short int': 'short', 'long int': 'long', 'unsigned long int': 'unsigned long', 'signed int': 'int',
+         'signed': 'int', 'signed short': 'short', 'signed long': 'long'}.get(t, t)
+    ity = int_type(t)
+    if ity is None or ity[0] < 8:
+        return None
+    return (ity[0], 0 if ity[1] else 1)
